@@ -229,6 +229,8 @@ func (f *FailoverOf[V]) Get(
 
 	// Disabling defer to unlock in background.
 	alreadyLocked = true
+	// Copying key, caller is free to reuse the slice once Get has returned.
+	key = append([]byte(nil), key...)
 	// Spawning cache update in background.
 	go func() {
 		defer func() {
